@@ -99,6 +99,10 @@ def step (d : DSt) (ws : List String) : DSt × String :=
       | _ => none
     let ms := specLog (t k) cs pubs
     (d, if ms.isEmpty then "-" else "+".intercalate (ms.map showMsg))
+  | ["!orphan", _, _] =>
+    -- specification: a failed Receive leaves nothing behind; the connection serves all 24 messages,
+    -- the regular command and the new Receive
+    (d, "cmd=ok msgs=24 newrecv=ok")
   | ["!churn", _, _, share] =>
     -- specification of the churn scenario: A [x1] sees p1; B [x2] sees p2 p3; the new C sees p4 p5,
     -- or p3 p4 when it shares x2 with B and is ended together with it
